@@ -17,6 +17,38 @@ ZMAX = 8            # |z| <= ZMAX <= 1/jitter  (1/jitter = 8.359...): the hypoth
 OUT = {"getref": 1, "watch": 2, "cb": 3, "timer": 4, "cancel": 5, "reset": 6, "remove": 7}
 INFO = {"unstarted": 0, "connecting": 1, "connected": 2, "waiting": 3}
 
+# Round 6: the documented knobs of the Reconnector.  `verbose` is an attribute the user sets on the instance (as
+# foolscap's own test_stop_trying does: rc.verbose = True); the tunables (maxDelay, initialDelay, factor -- the source
+# itself recommends Phi --, jitter, which the code tests for falsity) are class attributes "adapted from
+# ReconnectingClientFactory" that a user overrides in a subclass or on the class.  Family: NO setting of these knobs may
+# change what the state machine does -- with logging on, the Reconnector must go through exactly the states and outputs
+# it goes through with logging off, on every history; with other tunables the property (one activity, delay range for
+# THOSE tunables, back-off restart, silence after stop) must hold unchanged.  (name, options, only-logging?)
+OPTION_SETS = [
+    ("verbose", dict(verbose=True), True),
+    ("no-jitter", dict(jitter=0), False),
+    ("verbose-jitter-None", dict(verbose=True, jitter=None), False),
+    ("verbose-phi-tuned", dict(verbose=True, factor=1.6180339887498948, maxDelay=10, initialDelay=0.5, jitter=0.05), False),
+]
+
+
+def make_reconnector(options, *args):
+    """a Reconnector with the given knobs: tunables through a subclass (so that __init__ sees them, like a user's own
+    subclass or an assignment to the class would), `verbose` on the instance, before it is started"""
+    opts = dict(options or {})
+    verbose = opts.pop("verbose", None)
+    cls = rc.Reconnector
+    if opts:
+        cls = type("TunedReconnector", (rc.Reconnector,), opts)
+    r = cls(*args)
+    if verbose is not None:
+        r.verbose = verbose
+    return r
+
+
+def options_name(options):
+    return ", ".join("%s=%r" % kv for kv in sorted((options or {}).items())) or "defaults"
+
 
 class LogClock(task.Clock):
     """task.Clock that records callLater / cancel / reset in the driver's output log"""
@@ -170,7 +202,7 @@ class Driver:
     Every entry point of the Reconnector is wrapped on the instance, so that the driver knows in which order they were
     REALLY invoked: self.invoked is the history as model events."""
 
-    def __init__(self, cb_raises=False):
+    def __init__(self, cb_raises=False, options=None):
         self.log = []
         self.clock = LogClock(self.log)
         self.clock.drv = self
@@ -196,7 +228,7 @@ class Driver:
         self.cur_z = (Fraction(0), 0)
         self.claimed = []
         self.n_logged = len(E.logged_errors)
-        self.r = R = rc.Reconnector("pb://tubid@fake:x:1/name", self._cb, ("extra",), {"kw": 1})
+        self.r = R = make_reconnector(options, "pb://tubid@fake:x:1/name", self._cb, ("extra",), {"kw": 1})
         o_connected, o_failed, o_disc, o_timer = R._connected, R._failed, R._disconnected, R._timer_expired
 
         def w_connected(rref):
@@ -436,16 +468,17 @@ class Violation(Exception):
         self.what = what
 
 
-def run_sequence(events, cb_raises=False, oracle=True, only_last=False):
+def run_sequence(events, cb_raises=False, oracle=True, only_last=False, options=None):
     """run the events on a fresh real Reconnector.  -> (observations, violation or None, n_performed)
     observation per performed event: (flags, [output codes], delay float, timer float or None).
-    Events that are not enabled stop the run (the caller only passes permitted sequences, except for DFS probing)."""
-    drv = Driver(cb_raises)
+    Events that are not enabled stop the run (the caller only passes permitted sequences, except for DFS probing).
+    options: the knobs of the Reconnector (OPTION_SETS); the oracle reads the tunables off the real object."""
+    drv = Driver(cb_raises, options)
     obs = []
     viol = None
     try:
         R = drv.r
-        bound = R.maxDelay * (1 + R.jitter * ZMAX)
+        bound = R.maxDelay * (1 + (R.jitter or 0) * ZMAX)
         stopped_at = None
         started_before_stop = None
         since_ok = None         # None | "lost" | "timer"  (progress of: success, loss, timer, first failure)
@@ -539,6 +572,26 @@ def run_sequence(events, cb_raises=False, oracle=True, only_last=False):
         drv.close()
 
 
+def option_witnesses():
+    """fixed histories of the family 'the knobs do not change the state machine': together they walk through every
+    method of the Reconnector and every branch in it (all five failure types, a retry after a failure AND a retry after
+    a lost connection, reset while waiting / connected / stopped, stop in every state, the late events after a stop)
+    -> list of (name, events)"""
+    F = Fraction
+    return [
+        ("every-branch", [("start",), ("fail", F(1, 2), 0), ("timer",), ("fail", F(-1), 1), ("reset",), ("timer",),
+                          ("fail", F(2), 2), ("elapse",), ("timer",), ("fail", F(0), 3), ("timer",), ("fail", F(8), 4),
+                          ("timer",), ("ok",), ("lost",), ("timer",), ("fail", F(1, 2), 1), ("timer",), ("ok",), ("reset",),
+                          ("lost",), ("elapse",), ("reset",), ("timer",), ("ok",), ("stop",), ("lost",), ("reset",)]),
+        ("lost-right-after-the-first-success", [("start",), ("ok",), ("lost",), ("timer",), ("ok",), ("lost",), ("timer",),
+                                                ("fail", F(-8), 2), ("timer",), ("ok",), ("lost",), ("stop",)]),
+        ("stop-with-attempt-in-flight", [("start",), ("fail", F(1, 2), 3), ("timer",), ("stop",), ("ok",), ("reset",)]),
+        ("stop-in-flight-then-failure", [("start",), ("ok",), ("lost",), ("timer",), ("stop",), ("fail", F(2), 2), ("reset",)]),
+        ("stop-while-waiting", [("start",), ("fail", F(8), 4), ("stop",), ("reset",)]),
+        ("stop-before-start", [("stop",), ("start",), ("reset",)]),
+    ]
+
+
 MICRO_EXHAUSTIVE = [("start",), ("ok", ()), ("ok", ("stop",)), ("fail",), ("lose", ()), ("lose", ("stop",)), ("turn",),
                     ("timer",), ("reset",), ("stop",), ("later", ("ok", ())), ("later", ("stop",))]
 MICRO_ALL = MICRO_EXHAUSTIVE + [("ok", ("reset",)), ("ok", ("reset", "stop")), ("lose", ("reset",)), ("elapse",),
@@ -580,18 +633,18 @@ def micro_enabled(drv, op):
     return drv.enabled(name)
 
 
-def run_micro(ops, cb_raises=False):
+def run_micro(ops, cb_raises=False, options=None):
     """run micro-operations (explicit reactor turns, re-entrant user calls, queued operations) on a fresh real
     Reconnector.  -> (groups, violation or None, n_performed); one group per performed operation:
     (model events in the order the Reconnector's entry points were REALLY invoked, observation).
     After the last operation the eventual queue is drained (an extra, final group) so that whatever is still queued
     gets its chance to misbehave."""
-    drv = Driver(cb_raises)
+    drv = Driver(cb_raises, options)
     groups = []
     viol = None
     try:
         R = drv.r
-        bound = R.maxDelay * (1 + R.jitter * ZMAX)
+        bound = R.maxDelay * (1 + (R.jitter or 0) * ZMAX)
         todo = list(ops) + [None]
         for i, op in enumerate(todo):
             final = op is None
@@ -609,6 +662,12 @@ def run_micro(ops, cb_raises=False):
                 import traceback
                 viol = viol or Violation("oracle/exception-in-reconnector", "operation %d %r raised %s: %s"
                                          % (i, op, type(e).__name__, traceback.format_exc()[-500:]))
+                try:        # the state the raising operation left behind (callers index the groups by operation)
+                    snap = drv.snapshot()
+                    groups.append((drv.take_invoked(), (flags_of(snap), [OUT[o[0]] for o in drv.log], snap["delay"],
+                                                        snap["timer"], [])))
+                except Exception:
+                    groups.append(([], (0, [], 0.0, None, [])))
                 return groups, viol, len(ops)
             snap = drv.snapshot()
             evs = drv.take_invoked()
@@ -656,7 +715,7 @@ def run_micro(ops, cb_raises=False):
         drv.close()
 
 
-def dfs_micro(depth, on_node, alphabet=None):
+def dfs_micro(depth, on_node, alphabet=None, options=None, on_groups=None):
     """every sequence of micro-operations (from `alphabet`) of length <= depth that the real object permits, as a tree
     with shared prefixes.  -> list of root nodes; node = dict(op, path, evs, obs, kids) where evs/obs are what the last
     operation of the path made the Reconnector do (entry points actually invoked; observation without draining).
@@ -678,10 +737,12 @@ def dfs_micro(depth, on_node, alphabet=None):
             for a in alphabet:
                 op = instantiate(a, d)
                 p = path + [op]
-                groups, viol, done = run_micro(p)
+                groups, viol, done = run_micro(p, options=options)
                 if done < len(p):
                     continue
                 on_node(p, viol)
+                if on_groups is not None and len(groups) >= len(p):
+                    on_groups(p, groups)
                 node = dict(op=op, path=p, evs=groups[len(p) - 1][0], obs=groups[len(p) - 1][1], kids=[])
                 if viol is None:
                     node["kids"] = rec(p, n - 1)
@@ -764,7 +825,7 @@ def streak_witnesses(lengths):
     return out
 
 
-def dfs_real(depth, on_node):
+def dfs_real(depth, on_node, options=None):
     """pre-order enumeration of every sequence the real object permits, same order as Reconnector.dfs.
     on_node(path, observation, violation)"""
     def rec(path, n):
@@ -774,7 +835,7 @@ def dfs_real(depth, on_node):
         for name in ALPHABET:
             ev = ("fail", ZS[d % len(ZS)], d) if name == "fail" else (name,)
             p = path + [ev]
-            obs, viol, done = run_sequence(p, only_last=True)
+            obs, viol, done = run_sequence(p, only_last=True, options=options)
             if done < len(p):
                 continue
             on_node(p, obs[-1], viol)
@@ -812,8 +873,9 @@ def settle(net, rounds=30):
     E.turn()
 
 
-def real_tub_scenarios():
-    """-> list of (name, sig, ok, detail): scenarios with the real Tub / Broker / RemoteReference"""
+def real_tub_scenarios(verbose=False):
+    """-> list of (name, sig, ok, detail): scenarios with the real Tub / Broker / RemoteReference
+    verbose: the user switches the Reconnector's logging on, on the instance connectTo returned"""
     from foolscap.api import Referenceable
     out = []
     saved = rc.random
@@ -830,6 +892,7 @@ def real_tub_scenarios():
             A = unstarted_tub(net, "A", ps[0][1])
             cbs = []
             r = A.connectTo(furl, cbs.append)
+            r.verbose = verbose
             queued = (r._active is False and r._tub is None)
             r.stopConnecting()
             A.startService()
@@ -849,6 +912,7 @@ def real_tub_scenarios():
             A = unstarted_tub(net, "A", ps[0][1])
             cbs = []
             r = A.connectTo(furl, cbs.append)
+            r.verbose = verbose
             A.startService()
             settle(net)
             ok = len(cbs) == 1 and r._active and r.getReconnectionInfo().state == "connected"
@@ -888,6 +952,7 @@ def real_tub_scenarios():
             A = E.make_tub(net, "A", ps[0][1])
             cbs = []
             r = A.connectTo("pb://%s@fake:nowhere:1/obj" % ps[1][0], cbs.append)
+            r.verbose = verbose
             settle(net)
             delays = []
             for i in range(4):
@@ -928,7 +993,7 @@ LOSSES = ["cut", "b_hangup", "a_hangup"]
 
 
 class RealStack:
-    def __init__(self):
+    def __init__(self, verbose=False):
         from foolscap.api import Referenceable
         E.reset_clock()
         self.saved_random = rc.random
@@ -989,6 +1054,8 @@ class RealStack:
             return d
         self.A.getReference = getref
         self.r = R = self.A.connectTo(self.furl, self._cb, "extra")
+        if verbose:
+            R.verbose = True        # as foolscap's own tests switch it on: on the instance connectTo returned
         o_connected, o_failed, o_disc, o_timer = R._connected, R._failed, R._disconnected, R._timer_expired
 
         def w_connected(rref):
@@ -1172,10 +1239,10 @@ class RealStack:
         return evs, (flags_of(snap), [], R._delay, R.getDelayUntilNextAttempt(), [])
 
 
-def run_real_history(rounds, stop_stage="connected"):
+def run_real_history(rounds, stop_stage="connected", verbose=False):
     """rounds: list of dict(traffic=[(kind, stage)], loss=..., turn_before_loss=bool).
     -> (groups for the model comparison (state only), Violation or None, description)"""
-    S = RealStack()
+    S = RealStack(verbose)
     groups = []
     try:
         with E.quiet():
@@ -1326,7 +1393,8 @@ class TubRRef:
 
 
 class TubDriver:
-    def __init__(self):
+    def __init__(self, verbose=False):
+        self.verbose = verbose
         E.reset_clock()
         self.saved = (rc.reactor, rc.time, rc.random, ev.reactor)
         self.clock = task.Clock()
@@ -1458,6 +1526,8 @@ class TubDriver:
                 def init(r, *a, **kw):          # so that the Reconnector is known before connectTo starts it
                     o_init(r, *a, **kw)
                     drv.rcs.append(r)
+                    if drv.verbose:
+                        r.verbose = True
                 rc.Reconnector.__init__ = init
                 try:
                     got = self.tub.connectTo(url, self._cb, k)
@@ -1539,9 +1609,9 @@ def tev_name(e):
     return e[0]
 
 
-def run_tub_history(events):
+def run_tub_history(events, verbose=False):
     """run Tub-level events on a real Tub.  -> (observations, Violation or None, n_performed)"""
-    drv = TubDriver()
+    drv = TubDriver(verbose)
     obs = []
     viol = None
     try:
@@ -1614,7 +1684,7 @@ def tub_alphabet(nrc, depth=0):
     return out
 
 
-def dfs_tub(depth, on_node, max_rc=2):
+def dfs_tub(depth, on_node, max_rc=2, verbose=False):
     def rec(path, n):
         if n == 0:
             return
@@ -1623,7 +1693,7 @@ def dfs_tub(depth, on_node, max_rc=2):
             if e[0] == "connectTo" and nrc >= max_rc:
                 continue
             p = path + [e]
-            obs, viol, done = run_tub_history(p)
+            obs, viol, done = run_tub_history(p, verbose)
             if done < len(p):
                 continue
             on_node(p, obs, viol)
